@@ -206,8 +206,8 @@ Definition cstep_out (delay : Z) (s : cstate) (op : cop) : cstate * list pkt * Z
   | CAck kind res =>
       if (res =? 4) then
         (* error acknowledgement: ChanCloseInit; without provider channel the callback fails *)
-        if chan s then (mkC (queue s) (srec s) (chan s) true (outst s) (ccvals s) (pend s), [], 0)
-        else (s, [], 1)
+        if chan s && negb (closed s) then (mkC (queue s) (srec s) (chan s) true (outst s) (ccvals s) (pend s), [], 0)
+        else (s, [], 1)                                            (* ChanCloseInit fails on a closed channel *)
       else if res =? 6 then (s, [], 1)
       else if kind =? 2 then (s, [], 0)
       else if (res =? 1) || (res =? 2) then
